@@ -582,6 +582,32 @@ def numericalCovers (msgs : List Msg) (c : Cid) : Bool :=
     | .numerical (some cs) => cs.contains c
     | _ => false
 
+/-- The surviving identifiers keep their relative order, unless the call is a reorder (then the
+new order is the requested one, or nothing changed) or an `update_id` (then `new` stands exactly
+where `old` stood). -/
+def orderOk (op : Op) (pre post : List Cid) : Bool :=
+  match op with
+  | .reorder cs => (post == cs) || (post == pre)
+  | .updateId old new => (post == pre.map fun x => if x == old then new else x) || new == old
+  | _ => post.filter pre.contains == pre.filter post.contains
+
+/-- A surviving identifier's label changed iff `DataRenameComponent` announced it (with a hub); a
+new identifier is not announced as renamed. -/
+def labelsOk (hub : Bool) (pre post : Obs) (msgs : List Msg) : Bool :=
+  post.comps.all fun c =>
+    match lookupComp pre c.cid with
+    | some c0 => !hub || ((c0.label != c.label) == msgs.contains (.rename c.cid))
+    | none => !msgs.contains (.rename c.cid)
+
+/-- A surviving component whose class / shape / values changed is covered by a
+`NumericalDataChanged` (with a hub). -/
+def valuesOk (hub : Bool) (pre post : Obs) (msgs : List Msg) : Bool :=
+  post.comps.all fun c =>
+    match lookupComp pre c.cid with
+    | some c0 =>
+      !hub || (c0.kind == c.kind && c0.shape == c.shape && c0.val == c.val) || numericalCovers msgs c.cid
+    | none => true
+
 /-- One call, judged on what was observed before and after it, the messages a catch-all listener
 received, and whether the call raised:
 * a failed call changed nothing and announced nothing;
@@ -603,28 +629,17 @@ def specStep (pre : Obs) (op : Op) (post : Obs) (msgs : List Msg) (err : Option 
     (post.hub == pre.hub || op.isHubOp)
     && (hub || msgs.isEmpty)
     -- identifiers and their order
-    && (if hub then replay msgs (ocids pre) == some (ocids post) else true)
-    && (match op with
-        | .reorder cs => (ocids post == cs) || (ocids post == ocids pre)
-        | .updateId old new =>
-          (ocids post == (ocids pre).map fun x => if x == old then new else x) || new == old
-        | _ => (ocids post).filter (ocids pre).contains == (ocids pre).filter (ocids post).contains)
+    && (!hub || replay msgs (ocids pre) == some (ocids post))
+    && orderOk op (ocids pre) (ocids post)
     -- labels of surviving identifiers
-    && post.comps.all (fun c =>
-        match lookupComp pre c.cid with
-        | some c0 => !hub || ((c0.label != c.label) == msgs.contains (.rename c.cid))
-        | none => !msgs.contains (.rename c.cid))
+    && labelsOk hub pre post msgs
     && msgs.all (fun m => match m with
         | .rename c => (ocids post).contains c
         | _ => true)
     -- dataset label
     && (!hub || ((pre.dlabel != post.dlabel) == msgs.contains .update))
     -- values
-    && post.comps.all (fun c =>
-        match lookupComp pre c.cid with
-        | some c0 =>
-          !hub || (c0.kind == c.kind && c0.shape == c.shape && c0.val == c.val) || numericalCovers msgs c.cid
-        | none => true)
+    && valuesOk hub pre post msgs
     && (op.isValueUpdate || msgs.all (fun m => match m with | .numerical _ => false | _ => true))
     -- linked set
     && (!hub || post.inDc || !msgs.contains .ext || pre.linked.map (·.1) != post.linked.map (·.1) || op.isLinkOp)
